@@ -69,7 +69,7 @@ theorem object_adopts (cfg : Cfg) (ow : Owner) (prev : List Prev) (p : PObj) (w 
       ({ cur with rev := .num ow.rev, owners := released ++ [ow.ref true] } : Obj) = true := by
     simp [isController, refs, hnat, sameObj_refl, Owner.ref]
   have hns : ¬ (ow.ns ≠ "" ∧ desiredNs ow p ≠ ow.ns) := fun h => hr.2 ⟨hnat, h⟩
-  simp only [reconcilePhaseObject, hnat, true_and, hns, ↓reduceIte, hr.1, Bool.false_eq_true, reconcileObject,
+  simp only [reconcilePhaseObject_eq, hnat, true_and, hns, ↓reduceIte, hr.1, Bool.false_eq_true,
     seen_some w _ cur hg, reconcileObjectWith]
   rw [show check Strategy.native ow cfg.force cur prev p.cp = .adopt from hnat ▸ hadopt]
   simp only [↓reduceIte]
@@ -80,6 +80,7 @@ theorem object_adopts (cfg : Cfg) (ow : Owner) (prev : List Prev) (p : PObj) (w 
   have ha := apply_store w (keyOf cfg ow p) (appliedFor cfg ow p (released ++ [ow.ref true])) hq
   obtain ⟨h1, h2, h3, h4, h5, h6, h7, h8, _, _, h9⟩ := apply_some w.store (keyOf cfg ow p)
     (appliedFor cfg ow p (released ++ [ow.ref true])) cur hg hc.alive
+  simp only [watch_apply_store, watch_apply_snd, watch_store]
   rw [ha.1, ha.2]
   refine ⟨⟨_, h1, ?_⟩, ⟨_, rfl, h1⟩, h9⟩
   have hown : (w.store.apply (keyOf cfg ow p) (appliedFor cfg ow p (released ++ [ow.ref true]))).2.1.owners =
